@@ -1122,17 +1122,19 @@ def value_features(insts):
         if f not in out:
             out.append(f)
 
-    def walk(v, ctx):
+    def walk(v, ctx, depth=0):
         k = v[0]
         kind = k
         if k == "num":
             kind = "num-int" if "." not in v[1] else "num-real"
         add("value:%s%s" % (kind, ctx))
+        if k == "ref" and depth >= 2:
+            add("value:ref-in-nested-list")        # an entity reference inside an aggregate of aggregates
         if k == "list":
             for x in v[1]:
-                walk(x, "-in-list")
+                walk(x, "-in-list", depth + 1)
         elif k == "typed":
-            walk(v[2], "-in-typed" + ctx)
+            walk(v[2], "-in-typed" + ctx, depth)
     for x in insts:
         if len(x["parts"]) > 1:
             add("shape:complex")
